@@ -25,6 +25,10 @@ TOK = {
     "stmt_long_mb2_0": 'warn!("' + "\u00e9" * 60 + '");', "stmt_long_mb2_1": 'warn!("a' + "\u00e9" * 60 + '");',
     "stmt_long_mb3_0": 'error!("' + "\u4e16" * 40 + '");', "stmt_long_mb3_1": 'error!("a' + "\u4e16" * 40 + '");',
     "stmt_long_mb3_2": 'error!("ab' + "\u4e16" * 40 + '");',
+    # first-line material, and numbers just outside what a u32 holds in both reference styles
+    "shebang": "#!/usr/bin/env run-cargo-script\n", "innerattr": "#![allow(unused)]\n", "hash": "#",
+    "stmt_ref_over": 'warn!("[ref: 9999999999] over");', "stmt_ref_11": 'warn!("[ref: 42949672960] eleven");',
+    "kvref_over": 'info!(ref = 9999999999; "kv over");', "open_ref": 'info!("[ref: ',
     "cmt_mb4_2": "/* ab" + "\U0001F980" * 7 + " */\n", "cmt_mb4_3": "/* abc" + "\U0001F980" * 7 + " */\n",
 }
 
